@@ -214,7 +214,10 @@ def task_class(args):
         def on_path(c, first=first):
             if first[0] and nshapes < 6:
                 first[0] = False
-                v = validate_path(c)
+                try:
+                    v = validate_path(c)
+                except Exception:
+                    v = False
                 if v is True:
                     val[0] += 1
                 elif v is False:
